@@ -12,6 +12,7 @@ pub mod swaps;
 pub mod tour;
 pub mod tourx;
 pub mod trans;
+pub mod transx;
 
 pub fn header(name: &str, scope: &str, seed: u64, k: u64, tier: &str) -> String {
     format!("CASE {} {} {} {} {}\n", name, scope, seed, k, tier)
@@ -71,6 +72,13 @@ pub fn generate(scope: &str, name: &str, seed: u64, k: u64, rng: &mut Rng, tier:
                     let n = if tier == "thorough" { rng.range(20, 150) } else { rng.range(10, 40) };
                     head + &ctx.inst.to_text() + &sched::generate(&ctx, rng, n)
                 }
+            }
+        }
+        "transx" => {
+            let inst = transx::instance(k % transx::VARIANTS);
+            match load_or_report(inst) {
+                Err(s) => head + &s,
+                Ok(ctx) => head + &ctx.inst.to_text() + &transx::generate(&ctx),
             }
         }
         "trans" => {
@@ -133,7 +141,7 @@ pub fn rerun(text: &str) -> String {
             Err(s) => head + &s,
             Ok(ctx) => head + &ctx.inst.to_text() + &sched::rerun(&ctx, text),
         },
-        "trans" => match load_or_report(inst) {
+        "trans" | "transx" => match load_or_report(inst) {
             Err(s) => head + &s,
             Ok(ctx) => head + &ctx.inst.to_text() + &trans::rerun(&ctx, text),
         },
